@@ -104,9 +104,74 @@ static void one_buffer(int ii, uint8_t *p, int len, const char *place)
 	}
 }
 
+/* regions larger than 4 GiB (len is a size_t): block counters and offsets kept in 32-bit registers would wrap.
+ * The region lives in a MAP_NORESERVE anonymous mapping that is never written except for the single probe byte,
+ * so it is backed by the shared zero page and costs no memory. */
+#include <sys/mman.h>
+static void huge_part(void)
+{
+	const size_t G4 = 1ull << 32, MAPLEN = G4 + (32u << 20);
+	uint8_t *map = mmap(NULL, MAPLEN, PROT_READ | PROT_WRITE, MAP_PRIVATE | MAP_ANONYMOUS | MAP_NORESERVE, -1, 0);
+	if (map == MAP_FAILED) {
+		v_not_exhaustive("huge part: cannot map 4 GiB + 32 MiB of address space");
+		return;
+	}
+	static const size_t aligns[] = { 0, 1, 63 };
+	const size_t lens[] = { G4 - 1, G4, G4 + 1, G4 + 64, G4 + 65, G4 + 4096 + 129, G4 + (16u << 20) + 7 };
+	char key[200];
+	uint64_t unit = 0;
+	for (int ii = 0; ii < NIMPL; ii++) {
+		if (impl[ii].level >= 0 && impl[ii].level != CPU_AVX512 && impl[ii].level != CPU_AVX2 && !v_thorough)
+			continue;
+		for (unsigned ai = 0; ai < 3; ai++)
+			for (unsigned li = 0; li < sizeof lens / sizeof lens[0]; li++) {
+				if (!v_thorough && (ai == 2 || (li != 1 && li != 4 && li != 6)))
+					continue;
+				if (!v_mine(unit++))
+					continue;
+				if (v_deadline_hit())
+					goto out;
+				if (impl[ii].level >= 0)
+					cpu_set_level(impl[ii].level);
+				uint8_t *p = map + aligns[ai];
+				size_t len = lens[li];
+				int r = impl[ii].f(p, len);
+				v_eval();
+				if (r != 0) {
+					snprintf(key, sizeof key, "%s huge all-zero len=2^32%+lld align=%zu", impl[ii].name, (long long)(len - G4), aligns[ai]);
+					v_violation(key, "returned %d for an all-zero region", r);
+				}
+				/* single non-zero byte: last byte, first byte beyond 4 GiB, a few positions around 2^32 and the middle */
+				const size_t pos[] = { len - 1, len - 64, len - 129, G4 - aligns[ai], G4 + 5, G4 - 1, G4 / 2 + 3, 4097 };
+				for (unsigned pi = 0; pi < sizeof pos / sizeof pos[0]; pi++) {
+					if (pos[pi] >= len)
+						continue;
+					p[pos[pi]] = 0x40;
+					r = impl[ii].f(p, len);
+					p[pos[pi]] = 0;
+					v_eval();
+					if (r == 0) {
+						snprintf(key, sizeof key, "%s huge missed len=2^32%+lld align=%zu pos=len-%zu", impl[ii].name, (long long)(len - G4), aligns[ai], len - pos[pi]);
+						v_violation(key, "non-zero byte at offset %zu of %zu not detected", pos[pi], len);
+					}
+				}
+				v_count("regions_over_4GiB_checked", 1);
+				v_nontrivial(v_mix(0x4619 + ii, li * 8 + ai));
+			}
+	}
+out:
+	munmap(map, MAPLEN);
+}
+
 int main(int argc, char **argv)
 {
 	v_init(argc, argv, "C20");
+	if (v_part && !strcmp(v_part, "huge")) {
+		huge_part();
+		if (v_shard == 0)
+			v_note("huge part: regions of 2^32-1 .. 2^32+16 MiB bytes in a zero-page-backed MAP_NORESERVE mapping; all-zero and single non-zero bytes at the end, just beyond 4 GiB and in the middle, per variant");
+		return v_finish();
+	}
 	int N = v_thorough ? 1100 : 600;
 	static const int aq[] = { 0, 1, 7, 8, 15, 16, 31, 32, 63 };
 	for (int ii = 0; ii < NIMPL; ii++) {
